@@ -55,7 +55,23 @@ def noise_model(rng, kind):
         kw["depolarizing_rate"] = float(10 ** rng.uniform(-1.5, 0.7))
     if kind in ("eff", "eff+relaxation", "all"):
         k = int(rng.integers(1, 4))
-        kw["eff_noise_opers"] = [rng.normal(size=(2, 2)) + 1j * rng.normal(size=(2, 2)) for _ in range(k)]
+        def eff_op():
+            # structured operators next to generic ones: exactly diagonal with a complex relative phase, triangular, Hermitian, real
+            m = rng.normal(size=(2, 2)) + 1j * rng.normal(size=(2, 2))
+            kind = str(rng.choice(["full", "full", "diagonal-complex", "upper", "lower", "hermitian", "real"]))
+            if kind == "diagonal-complex":
+                m = np.diag(np.diag(m))
+            elif kind == "upper":
+                m = np.triu(m, 1)
+            elif kind == "lower":
+                m = np.tril(m, -1)
+            elif kind == "hermitian":
+                m = m + m.conj().T
+            elif kind == "real":
+                m = m.real.astype(complex)
+            return m
+
+        kw["eff_noise_opers"] = [eff_op() for _ in range(k)]
         kw["eff_noise_rates"] = [float(10 ** rng.uniform(-1.5, 0.5)) for _ in range(k)]
     return NoiseModel(**kw), kw
 
